@@ -14,6 +14,7 @@ _exec = ThreadPoolExecutor(max_workers=1, thread_name_prefix="z3")
 _cache = {}
 _ufdecl = {}
 FEAS_TIMEOUT = [5.0]
+CROSS = {"limit": int(__import__("os").environ.get("VERIF_CROSS", "0"))}
 
 STATS = {"queries": 0, "sat": 0, "unsat": 0, "unknown": 0, "solver_s": 0.0, "feas_queries": 0,
          "fastpath": 0, "cross_checked": 0, "cross_disagree": 0, "smt_samples": []}
@@ -311,6 +312,10 @@ def prove_equal(impl, ref, pc=(), timeout_s=30.0, bound=100, eps=Fraction(1, 100
     if r == "sat":
         return Verdict("violated", m, "robust")
     r2, m2 = check(base + [T.cmp("ne", impl, ref)], timeout_s)
+    if r2 in ("sat", "unsat") and CROSS["limit"] > STATS["cross_checked"]:
+        # second solver on the same query (thorough tier): disagreement is a harness error, never a verdict
+        if not cross_check(base + [T.cmp("ne", impl, ref)], r2, timeout_s=20):
+            return Verdict("unknown", None, "solver disagreement: z3 %s, cvc5 the opposite" % r2)
     if r2 == "unsat":
         return Verdict("holds")
     if r2 == "sat":
